@@ -70,6 +70,9 @@ type Payload struct {
 	Reap bool `json:"reap,omitempty"`
 	// Host: "" = the in-memory host of the harness, "testing" = the repository's testing host (host.go).
 	Host string `json:"host,omitempty"`
+	// Reuse: the host keeps the composite values it has passed and passes the very same value (not an equal
+	// new one) whenever a later call of the history needs an equal argument - one payload for several callbacks.
+	Reuse bool `json:"reuse,omitempty"`
 }
 
 type exitRec struct {
@@ -452,6 +455,23 @@ func runHistory(pl Payload) (h *histRun) {
 		return h
 	}
 
+	// the host's argument values: new storage per call, or (Payload.Reuse) one value per distinct composite
+	// argument of the history, passed again whenever an equal argument is needed
+	kept := map[string]vvalue.Value{}
+	hostValue := func(a valuni.Val) vvalue.Value {
+		if !pl.Reuse || !isComposite(a) {
+			return *valuni.ToVM(a)
+		}
+		key := fmt.Sprintf("%d:%s", a.K, a.String())
+		if x, ok := kept[key]; ok {
+			h.obs["args_passed_again"]++
+			return x
+		}
+		x := *valuni.ToVM(a)
+		kept[key] = x
+		return x
+	}
+
 	st := newState(v.Init)
 	failedAt := -1 // index of the first failed call (model or observed) on the current VM
 	// abandoned: no further call may be attempted on the current VM (it would block); a new VM may follow
@@ -488,7 +508,8 @@ func runHistory(pl Payload) (h *histRun) {
 			return h
 		}
 		for k, a := range op.Args {
-			if k >= len(spec.Params) || !valuni.HasType(a, spec.Params[k].T) {
+			// well-typed = what SpawnSync admits without a conversion of a leaf: the type itself, a T for a ?T
+			if k >= len(spec.Params) || !valuni.Conforms(a, spec.Params[k].T, false) {
 				h.inconcl = fmt.Sprintf("harness: op %d %s: argument %d is not well-typed", i, op, k)
 				return h
 			}
@@ -524,8 +545,15 @@ func runHistory(pl Payload) (h *histRun) {
 
 		// the implementation
 		args := make([]vvalue.Value, len(op.Args))
+		// stale: a kept value that an earlier call has changed (reported then) is not held against this call
+		stale := make([]bool, len(op.Args))
 		for k, a := range op.Args {
-			args[k] = *valuni.ToVM(a)
+			args[k] = hostValue(a)
+			if pl.Reuse && isComposite(a) {
+				if now, err := valuni.FromVM(args[k]); err != nil || !sameVal(now, a) {
+					stale[k] = true
+				}
+			}
 		}
 		inv := runtime.FunctionInvocation{Function: spec.Name, LiteralName: spec.Literal, Args: args, FunctionSignature: sig}
 		if spec.Literal {
@@ -567,6 +595,22 @@ func runHistory(pl Payload) (h *histRun) {
 		exits := append([]exitRec{}, mon.exits...)
 		mainCore, spawns := mon.main, mon.spawns
 		mon.mu.Unlock()
+		// the argument values are the host's: the call received them, what it does to its parameters must not
+		// stay behind in them (a host that passes the same value again would get another answer)
+		for k, a := range op.Args {
+			if !isComposite(a) || stale[k] {
+				continue
+			}
+			h.obs["arg_checks"]++
+			now, err := valuni.FromVM(args[k])
+			if err != nil || !sameVal(now, a) {
+				got := "a malformed value"
+				if err == nil {
+					got = now.String()
+				}
+				h.violate("args:changed:"+spec.Name+":"+spec.Params[k].T.Shape(), fmt.Sprintf("call %d %s: after the call returned, the value the host passed for parameter %s (declared %s) is %s; the host passed %s. The call worked on the host's own value instead of on the value the boundary admitted: what it did to its parameter stays behind in the argument and changes the result of every later call that is given this value again", i, op, spec.Params[k].Name, spec.Params[k].T, util.Clip(got, 200), util.Clip(a.String(), 200)), h.trace)
+			}
+		}
 
 		obsFailed := res.Exception != nil
 		var oc drive.Outcome
@@ -795,6 +839,17 @@ func (h *histRun) checkValue(i int, op Op, spec *fnSpec, want valuni.Val, res ru
 		return false
 	}
 	return true
+}
+
+// isComposite: values with storage of their own (a call could change them in place).
+func isComposite(a valuni.Val) bool {
+	switch a.K {
+	case valuni.VList, valuni.VObj, valuni.VAnyObj:
+		return true
+	case valuni.VSome:
+		return isComposite(*a.Inner)
+	}
+	return false
 }
 
 func protect(f func()) (pv any) {
